@@ -86,82 +86,86 @@ def run(ctx):
         ctx.broken.append("lock-discipline model with the code's deviations switched on found no race: model is wrong")
 
     _t(ctx, "R1 model checking")
-    exe = ctx.go_build("vh-bloom")
-    # ---- R2a: transition cover of the sequential specification replayed on the real filter
-    open(os.path.join(sd, "gen.cfg"), "w").write(CFG % dict(
-        base, spec="GenSpec", log="LogAppend", depth=8, posset="0, 7, 8, 23" if q else "0, 7, 8, 15, 23",
-        rest="VIEW cvars\nACTION_CONSTRAINT EmitEdge"))
-    beh = ctx.path("edges.ndjson")
-    g = ctx.tlc(sd, "MC_Bloom", "gen.cfg", timeout=900, behaviours_out=beh)
-    sus = ctx.path("suspects.ndjson")
-    r = ctx.vh(exe, ["replay", beh, sus], timeout=900)
-    ctx.cov(traces_validated_against_impl=int(r.stats.get("behaviours", 0)), evaluations=int(r.stats.get("steps", 0)),
-            distinct_nontrivial=int(r.stats.get("distinct_transitions", 0)))
-    if g.ok and g.behaviours == 0:
-        ctx.broken.append("behaviour export produced nothing")
-    judge_suspects(ctx, sd, sus, int(r.stats.get("suspect_events", 0)))
-    _t(ctx, "R2a transition cover + replay")
-    # ---- R2b: long random behaviours (3 keys)
-    open(os.path.join(sd, "sim.cfg"), "w").write(CFG % dict(
-        base, spec="GenSpec", log="LogAppend", depth=30, keys='"a","b","c"', rest="ACTION_CONSTRAINT EmitFull"))
-    beh2 = ctx.path("sim.ndjson")
-    ctx.tlc(sd, "MC_Bloom", "sim.cfg", simulate=40 if q else 600, depth=30, timeout=600, behaviours_out=beh2)
-    sus2 = ctx.path("suspects2.ndjson")
-    r2 = ctx.vh(exe, ["replay", beh2, sus2], timeout=900)
-    ctx.cov(traces_validated_against_impl=int(r2.stats.get("behaviours", 0)), evaluations=int(r2.stats.get("steps", 0)))
-    judge_suspects(ctx, sd, sus2, int(r2.stats.get("suspect_events", 0)))
-    _t(ctx, "R2b simulation + replay")
-    # ---- R3: real hashers (keccak/blake2b/fnv/sha256), real sizes (5 .. 2048 bytes, default filter), random keys
-    tr = os.path.join(sd, "trace.ndjson")
-    nt, ln = (30, 120) if q else (300, 300)
-    r3 = ctx.vh(exe, ["record", ctx.seed, nt, ln, tr])
-    ne = int(r3.stats.get("events", 0))
-    st, line = vlib.validate_trace(ctx, sd, "Trace_Bloom", "Trace_Bloom.cfg", tr, ne, "C31/trace",
-                                   divergence_is_violation=False, what="bloom.Bloom trace", obs_cfg="Trace_Bloom_obs.cfg")
-    if st == "accepted":
-        ctx.cov(traces_validated_against_impl=nt, evaluations=ne)
-    if not q and st == "accepted":
-        def false_negative(evs):
-            added = set()
-            for e in evs:
-                if e["a"] == "New" or e["a"] == "Clear":
-                    added = set()
-                elif e["a"] == "Add":
-                    added.add(e["in"]["k"])
-                elif e["a"] == "MayContain" and e["in"]["k"] in added:
-                    e["out"]["r"] = False
-                    break
-            return evs
-        vlib.selftest_rejects(ctx, sd, "Trace_Bloom", "Trace_Bloom.cfg", tr, false_negative)
-        vlib.selftest_rejects(ctx, sd, "Trace_Bloom", "Trace_Bloom_obs.cfg", tr, false_negative)
+    only = os.environ.get("VERIF_ONLY", "")   # development aid: "seq" or "race" runs one half only
+    if only != "race":
+        exe = ctx.go_build("vh-bloom")
+        # ---- R2a: transition cover of the sequential specification replayed on the real filter
+        open(os.path.join(sd, "gen.cfg"), "w").write(CFG % dict(
+            base, spec="GenSpec", log="LogAppend", depth=8, posset="0, 7, 8, 23" if q else "0, 7, 8, 15, 23",
+            rest="VIEW cvars\nACTION_CONSTRAINT EmitEdge"))
+        beh = ctx.path("edges.ndjson")
+        g = ctx.tlc(sd, "MC_Bloom", "gen.cfg", timeout=900, behaviours_out=beh)
+        sus = ctx.path("suspects.ndjson")
+        r = ctx.vh(exe, ["replay", beh, sus], timeout=900)
+        ctx.cov(traces_validated_against_impl=int(r.stats.get("behaviours", 0)), evaluations=int(r.stats.get("steps", 0)),
+                distinct_nontrivial=int(r.stats.get("distinct_transitions", 0)))
+        if g.ok and g.behaviours == 0:
+            ctx.broken.append("behaviour export produced nothing")
+        judge_suspects(ctx, sd, sus, int(r.stats.get("suspect_events", 0)))
+        _t(ctx, "R2a transition cover + replay")
+        # ---- R2b: long random behaviours (3 keys)
+        open(os.path.join(sd, "sim.cfg"), "w").write(CFG % dict(
+            base, spec="GenSpec", log="LogAppend", depth=30, keys='"a","b","c"', rest="ACTION_CONSTRAINT EmitFull"))
+        beh2 = ctx.path("sim.ndjson")
+        ctx.tlc(sd, "MC_Bloom", "sim.cfg", simulate=40 if q else 600, depth=30, timeout=600, behaviours_out=beh2)
+        sus2 = ctx.path("suspects2.ndjson")
+        r2 = ctx.vh(exe, ["replay", beh2, sus2], timeout=900)
+        ctx.cov(traces_validated_against_impl=int(r2.stats.get("behaviours", 0)), evaluations=int(r2.stats.get("steps", 0)))
+        judge_suspects(ctx, sd, sus2, int(r2.stats.get("suspect_events", 0)))
+        _t(ctx, "R2b simulation + replay")
+        # ---- R3: real hashers (keccak/blake2b/fnv/sha256), real sizes (5 .. 2048 bytes, default filter), random keys
+        tr = os.path.join(sd, "trace.ndjson")
+        nt, ln = (30, 120) if q else (300, 300)
+        r3 = ctx.vh(exe, ["record", ctx.seed, nt, ln, tr])
+        ne = int(r3.stats.get("events", 0))
+        st, line = vlib.validate_trace(ctx, sd, "Trace_Bloom", "Trace_Bloom.cfg", tr, ne, "C31/trace",
+                                       divergence_is_violation=False, what="bloom.Bloom trace", obs_cfg="Trace_Bloom_obs.cfg")
+        if st == "accepted":
+            ctx.cov(traces_validated_against_impl=nt, evaluations=ne)
+        if not q and st == "accepted":
+            def false_negative(evs):
+                added = set()
+                for e in evs:
+                    if e["a"] == "New" or e["a"] == "Clear":
+                        added = set()
+                    elif e["a"] == "Add":
+                        added.add(e["in"]["k"])
+                    elif e["a"] == "MayContain" and e["in"]["k"] in added:
+                        e["out"]["r"] = False
+                        break
+                return evs
+            vlib.selftest_rejects(ctx, sd, "Trace_Bloom", "Trace_Bloom.cfg", tr, false_negative)
+            vlib.selftest_rejects(ctx, sd, "Trace_Bloom", "Trace_Bloom_obs.cfg", tr, false_negative)
 
-        def lost_bit(evs):
-            for e in evs:
-                if e["a"] == "Add" and len(e["st"].get("bits", [])) >= 2:
-                    e["st"]["bits"] = e["st"]["bits"][1:]
-                    break
-            return evs
-        vlib.selftest_rejects(ctx, sd, "Trace_Bloom", "Trace_Bloom_obs.cfg", tr, lost_bit)
-    _t(ctx, "R3 record + trace validation")
-    # ---- race half: scenarios enumerated by TLC from the lock-discipline table, run under the race detector
-    rexe = ctx.go_build("vh-bloom", race=True)
-    scen = ctx.path("scenarios.ndjson")
-    with open(scen, "w") as out:
-        for th in (["1, 2"] if q else ["1, 2", "1, 2, 3"]):
-            open(os.path.join(sd, "scen.cfg"), "w").write(LOCKS % dict(
-                spec="GenSpec", threads=th, defects=AS_IS, rest="ACTION_CONSTRAINT EmitEdge"))
-            part = ctx.path("scen-part.ndjson")
-            gs = ctx.tlc(sd, "MC_BloomLocks", "scen.cfg", timeout=300, behaviours_out=part, count=False)
-            if gs.ok and gs.behaviours == 0:
-                ctx.broken.append("scenario export produced nothing")
-            out.write(open(part).read())
-    rr = ctx.vh(rexe, ["race", scen, 150 if q else 600], timeout=1500)
-    ctx.cov(traces_validated_against_impl=int(rr.stats.get("scenarios", 0)),
-            evaluations=int(rr.stats.get("goroutine_iterations", 0)),
-            distinct_nontrivial=int(rr.stats.get("distinct_scenarios", 0)),
-            race_scenarios=int(rr.stats.get("scenarios", 0)), race_observed=int(rr.stats.get("race_observed", 0)),
-            race_predicted_by_model=int(rr.stats.get("race_predicted", 0)))
-    _t(ctx, "race scenarios")
+            def lost_bit(evs):
+                for e in evs:
+                    if e["a"] == "Add" and len(e["st"].get("bits", [])) >= 2:
+                        e["st"]["bits"] = e["st"]["bits"][1:]
+                        break
+                return evs
+            vlib.selftest_rejects(ctx, sd, "Trace_Bloom", "Trace_Bloom_obs.cfg", tr, lost_bit)
+        _t(ctx, "R3 record + trace validation")
+    if only != "seq":
+        # ---- race half: scenarios enumerated by TLC from the lock-discipline table, run under the race detector
+        rexe = ctx.go_build("vh-bloom", race=True)
+        scen = ctx.path("scenarios.ndjson")
+        with open(scen, "w") as out:
+            for th in (["1, 2"] if q else ["1, 2", "1, 2, 3"]):
+                open(os.path.join(sd, "scen.cfg"), "w").write(LOCKS % dict(
+                    spec="GenSpec", threads=th, defects=AS_IS, rest="ACTION_CONSTRAINT EmitEdge"))
+                part = ctx.path("scen-part.ndjson")
+                gs = ctx.tlc(sd, "MC_BloomLocks", "scen.cfg", timeout=300, behaviours_out=part, count=False)
+                if gs.ok and gs.behaviours == 0:
+                    ctx.broken.append("scenario export produced nothing")
+                out.write(open(part).read())
+        rr = ctx.vh(rexe, ["race", scen, 150 if q else 600], timeout=1500)
+        ctx.cov(traces_validated_against_impl=int(rr.stats.get("scenarios", 0)),
+                evaluations=int(rr.stats.get("goroutine_iterations", 0)),
+                distinct_nontrivial=int(rr.stats.get("distinct_scenarios", 0)),
+                race_scenarios=int(rr.stats.get("scenarios", 0)), race_observed=int(rr.stats.get("race_observed", 0)),
+                race_predicted_by_model=int(rr.stats.get("race_predicted", 0)),
+                race_predicted_not_observed=int(rr.stats.get("race_predicted_not_observed", 0)))
+        _t(ctx, "race scenarios")
     ctx.cov(rule="sequential half: every transition of the Bloom specification's state graph (2 keys, filter of 2-3 bytes, 1-2 "
                  "hash functions, every assignment of keys to byte-border bit positions) replayed on the real filter built with "
                  "stub hashers, comparing MayContain answers and the bit set; distinct = distinct (configuration, source bits, "
